@@ -46,7 +46,7 @@ P = {
          "The golden Portuguese list has no external digest corroboration (checked structurally only).", "6/C08"),
  "C09": ("exploration",
          "exhaustive range enumeration of lengths and counts + rapid Int generation (also as a native fuzz target in the thorough tier), with a counting randomness source installed through the verif hook",
-         "Every entropy length 0..4096 (thorough 0..65536, plus MiB sizes) and every word count in [-4096,4096] (thorough +-10^6), int extremes and values congruent to valid counts modulo 2^32 are tried; success iff one of the five sizes, otherwise the sentinel error, the empty string and zero reads of the source.",
+         "Every entropy length 0..4096 (thorough 0..65536, plus MiB sizes) and every word count in [-4096,4096] (thorough +-10^6), int extremes and values congruent to valid counts modulo 2^32 are tried; success iff one of the five sizes, otherwise the sentinel error, the empty string and zero reads of the source; counts congruent to a valid one modulo 2^k (k = 8..63) are included and the range job also runs in a 32-bit (GOARCH=386) build where int is 32 bits wide.",
          "With an unsupported language only the shape of the result is asserted.", "6/C09"),
  "C10": ("exploration",
          "metamorphic relation (NFKD-equal spellings => equal verdict) over a complete list-word sweep with compatibility twins, rapid respellings with a self-checking inverse-NFKD substitution generator, a concurrent variant; native fuzzing in the thorough tier",
@@ -66,7 +66,7 @@ P = {
          "", "6/C13"),
  "C14": ("exploration",
          "robustness testing: grid over Language values, sizes, block-edge code points and extreme-length entropies, rapid-generated hostile arguments with a hang watchdog, coverage-guided native fuzzing in the thorough tier",
-         "Every entry point is called with every Language in [-300,300] and at integer boundaries, entropy lengths 0..1024 (thorough 0..4096), word counts at boundaries, sentences of 1..61 real words, invalid UTF-8, NULs, code points at the edges of the scripts' Unicode blocks, extreme-length entropies and 0.5-4 MiB inputs; rapid draws and (thorough) two native fuzz targets extend this. A recovered panic or a call exceeding 120 s is a violation.",
+         "Every entry point is called with every Language in [-300,300] and at integer boundaries, entropy lengths 0..1024 (thorough 0..4096), word counts at boundaries, sentences of 1..61 real words, invalid UTF-8, NULs, code points at the edges of the scripts' Unicode blocks, extreme-length entropies and 0.5-4 MiB inputs; rapid draws and (thorough) two native fuzz targets extend this. The grid also runs in a 32-bit (GOARCH=386) build. A recovered panic or a call exceeding 120 s is a violation.",
          "\"Never hangs\" is decided up to the 120 s bound.", "6/C14"),
  "C15": ("exploration",
          "generated single-defect sentences re-classified by the reference model, errors.Is / message-content oracle, primer and after-call probes, concurrent variant; native fuzzing in the thorough tier",
@@ -74,7 +74,7 @@ P = {
          "Combined defects are not asserted (the property does not order them).", "6/C15"),
  "C16": ("exploration",
          "exhaustive range enumeration + rapid Int64 generation against a name table keyed by the declared constants, retention / revisit probes, concurrent variant",
-         "Every Language value in [-100000,100000] (thorough: [-2^24,2^24]) plus all integer-width boundaries and random int64 draws is printed and compared with the declared identifier / \"Language(N)\"; the returned string is re-read after other values were printed, values printed thousands of distinct values ago are revisited, and 8 goroutines print different values at once; panics are caught.",
+         "Every Language value in [-100000,100000] (thorough: [-2^24,2^24]) plus all integer-width boundaries and random int64 draws is printed and compared with the declared identifier / \"Language(N)\"; the returned string is re-read after other values were printed, values printed thousands of distinct values ago are revisited, and 8 goroutines print different values at once; the range job also runs in a 32-bit (GOARCH=386) build; panics are caught.",
          "", "6/C16"),
  "C17": ("exploration",
          "round-trip testing of the real tool binary (built with the verif hook) on rapid-generated upstream files served over loopback HTTP, with re-runs over existing output, a cut download and TMPDIR on another filesystem; output parsed with go/parser and type-checked with go/types",
